@@ -74,12 +74,23 @@ TWait == /\ Is("syncWait") /\ Adv /\ UNCHANGED sN
 Cause(x, t) == \/ \E c \in x.nackT \cup x.fireT : Near(c, t) /\ c >= x.tw - TOL
                \/ Near(x.quitT, t)
                \/ Near(x.lastDone, t) /\ Near(x.tw, t)
+\* queue.processNACK tells the syncer first (syncer.processNACK, which wakes
+\* the waiting goroutine) and reports its "nack" line at its end: the woken
+\* goroutine's syncDone line can overtake it.  The expected NACK reported by
+\* the same endpoint within the next few lines, all of the same instant, is
+\* that cause.
+LateNack(x, ep, t) ==
+    /\ x.res
+    /\ \E j \in (l + 1)..(IF l + 8 < Len(Trace) THEN l + 8 ELSE Len(Trace)) :
+          /\ Trace[j].ev = "nack" /\ Trace[j].ep = ep /\ Trace[j].seq = x.expN
+          /\ \A k \in (l + 1)..j : "t" \in DOMAIN Trace[k] /\ Near(Trace[k].t, t)
 TDone == /\ Is("syncDone") /\ Adv /\ UNCHANGED sN
          /\ LET x == o[Ev.ep] IN
             /\ x.wait
             /\ Ev.t <= x.tw + 3 * x.rtw + TOL                       \* BoundedWait
             /\ \/ Ev.t >= x.tw + 3 * x.rtw - TOL                    \* the timeout
                \/ Cause(x, Ev.t)                                    \* EarlyOnlyWithCause
+               \/ LateNack(x, Ev.ep, Ev.t)
          /\ o' = [o EXCEPT ![Ev.ep].wait = FALSE, ![Ev.ep].res = FALSE, ![Ev.ep].lastDone = Ev.t]
 
 \* the harness takes stock (connections still open): no wait may be overdue
